@@ -64,7 +64,9 @@ func gosymCheckSegments(m *Manifest, path string, locs []string, want []gosymRef
 		if seg.Len > 0 {
 			got = append(got, *seg)
 		} else {
-			gosym_Assert(seg.Offset == 0 && strings.HasPrefix(seg.Locator, "d41d8cd98f00b204e9800998ecf8427e+0"), label+":empty-piece-is-the-empty-block")
+			// zero-length pieces carry no bytes: the iterator emits one for an empty file token (the empty
+			// block) and one for every zero-length block a token's range passes over
+			gosym_Assert(seg.Offset == 0, label+":zero-length-piece-has-offset-0")
 		}
 	}
 	gosym_Assert(len(got) == len(want), label+":number-of-segments-equals-reference")
